@@ -79,8 +79,10 @@ fn scenario(max_steps: usize) -> BoxedStrategy<Case> {
     };
     let member = |o: Expr, m: &str| Expr::Member(Box::new(o), m.to_string());
     let index = |o: Expr, i: &str| Expr::Index(Box::new(o), Box::new(Expr::Num(i.to_string())));
-    (0usize..8, any::<bool>(), any::<bool>(), gen::data::keyed_list(), proptest::collection::vec(gen::data::scalar(), 0..4), gen::data::scalar(), gen::data::scalar(), proptest::collection::vec(gen::history::step(), 1..=max_steps), any::<u64>())
-        .prop_map(move |(shape, keyed, lead, list, c, a, b, steps, style)| {
+    (0usize..10, any::<bool>(), any::<bool>(), gen::data::keyed_list(), proptest::collection::vec(gen::data::scalar(), 0..4), gen::data::scalar(), gen::data::scalar(), proptest::collection::vec(gen::history::step(), 1..=max_steps), proptest::collection::vec(gen::history::step_splice(), 1..=max_steps), any::<u64>())
+        .prop_map(move |(shape, keyed, lead, list, c, a, b, steps, steps_splice, style)| {
+            // shapes 8, 9 read their arrays through wx:for only: the exact `index.ts` splice tree is sound for them
+            let steps = if shape >= 8 { steps_splice } else { steps };
             let for_ = |list: Expr, key: Option<&str>, kids: Vec<Node>| Node::For(Box::new(ForNode { list: Val::Bind(list), item: None, index: None, key: key.map(|k| k.to_string()), kids, carrier: Carrier::Block }));
             let mut named = vec![];
             let body = match shape {
@@ -105,6 +107,8 @@ fn scenario(max_steps: usize) -> BoxedStrategy<Case> {
                     Node::El(crate::model::wxml::El { tag: "v".into(), attrs: vec![crate::model::wxml::Attr { kind: crate::model::wxml::AttrKind::Plain, name: "n".into(), val: Some(Val::Bind(member(id("list"), "length"))) }], slot: None, slot_refs: vec![], kids: vec![] }),
                     for_(id("list"), if keyed { Some("id") } else { None }, vec![txt(vec![bind(member(id("item"), "v")), lit("#"), bind(member(id("list"), "length"))])]),
                 ],
+                8 => vec![for_(id("list"), if keyed { Some("id") } else { None }, vec![txt(vec![bind(member(id("item"), "v")), lit("|"), bind(id("a")), lit("|"), bind(id("index"))])]), for_(id("c"), None, vec![txt(vec![bind(id("item")), lit(","), bind(id("index"))])])],
+                9 => vec![for_(id("list"), if keyed { Some("id") } else { None }, vec![for_(id("c"), if lead { Some("*this") } else { None }, vec![txt(vec![bind(id("item")), lit("/"), bind(id("index"))])]), txt(vec![bind(member(id("item"), "id"))])])],
                 // loop inside a called template whose data carries the list and an outside field
                 _ => {
                     named.push(("t2".to_string(), vec![for_(id("list"), if keyed { Some("id") } else { None }, vec![txt(vec![bind(member(id("item"), "v")), lit("~"), bind(id("a"))])])]));
